@@ -92,7 +92,24 @@ impl<'a> Ctx<'a> {
 
     /// everything a state can be asked, once per distinct abstract state
     fn full_observation(&mut self, b: &MessageBuilder<'a>, skey: &str, path: &[(String, String)]) {
-        let bytes = b.build();
+        // a panic on any of the serialisation paths is an answer like any other (C12: TooSmall is what a short destination gets)
+        let bytes = match catch_unwind(AssertUnwindSafe(|| b.build())) {
+            Ok(v) => v,
+            Err(_) => {
+                self.mismatch(path, "C12", "build() panicked".into());
+                vec![]
+            }
+        };
+        let probed = catch_unwind(AssertUnwindSafe(|| Self::serialisation_paths(b, &bytes)));
+        let problems = probed.unwrap_or_else(|_| vec!["a serialisation path (byte_len / write_into / clone / into_owned) panicked".to_string()]);
+        for p in problems {
+            self.mismatch(path, "C12", p);
+        }
+        self.state_out.push(json!({"state": skey, "bytes": bytes, "types": self.lts.states[skey]["types"], "path_len": path.len()}));
+    }
+
+    fn serialisation_paths(b: &MessageBuilder<'a>, bytes: &[u8]) -> Vec<String> {
+        let bytes = bytes.to_vec();
         let len = b.byte_len();
         let mut problems = vec![];
         if bytes.len() != len {
@@ -127,10 +144,15 @@ impl<'a> Ctx<'a> {
         if b.clone().into_owned().clone().build() != bytes {
             problems.push("into_owned().clone().build() differs".into());
         }
-        for p in problems {
-            self.mismatch(path, "C12", p);
+        // each short destination on its own, so that a panic for one size is reported with that size
+        for short in 0..len.min(24) {
+            let mut d = vec![0xAAu8; short];
+            if catch_unwind(AssertUnwindSafe(|| { let _ = b.write_into(&mut d); })).is_err() {
+                problems.push(format!("write_into({short} bytes) panicked"));
+                break;
+            }
         }
-        self.state_out.push(json!({"state": skey, "bytes": bytes, "types": self.lts.states[skey]["types"], "path_len": path.len()}));
+        problems
     }
 
     fn dfs(&mut self, b: &MessageBuilder<'a>, skey: &str, depth: usize, maxdepth: usize, path: &mut Vec<(String, String)>) {
